@@ -5,7 +5,7 @@ import random
 import numpy as np
 import pandas as pd
 
-from .core import job
+from .core import job, stable_hash
 from . import oracles as O
 from .signals import FAMILIES, make_signal
 from .jobs_pipeline import TH_PRESETS, AMP_TH, AMP_BK, FEK
@@ -160,7 +160,7 @@ class Purity:
         from bycycle.utils import limit_df, epoch_df, drop_samples_df
         from bycycle.group import compute_features_2d, compute_features_3d
         from bycycle.plts import plot_burst_detect_summary, plot_cyclepoints_df, plot_cyclepoints_array, plot_burst_detect_param
-        rng = random.Random(c['seed'] * 31 + hash(c['family']) % 1000)
+        rng = random.Random(c['seed'] * 31 + stable_hash(c['family']) % 1000)
         sig = make_signal(c['family'], c['seed'], n=1200)
         fs, fr = 500.0, (7.0, 13.0)
         th = dict(TH_PRESETS['loose']) if c['method'] == 'cycles' else dict(burst_fraction_threshold=.5, min_n_cycles=2)
